@@ -52,8 +52,18 @@ HexVerdict(cs) ==
     ELSE IF cs.undump # cs.data THEN "hexundump-inverts"
     ELSE IF HexUndump(cs.lines, cs.n) # cs.data THEN "format-reads-back"
     ELSE ""
+\* a dump too long to be handed over whole: its length, the number of lines, the first and last lines with the slices they show,
+\* and the ends of what hexundump returns
+HexLongVerdict(cs) ==
+    LET ow == OffsetWidth(cs.len) IN
+    IF cs.nlines # ((cs.len + cs.n - 1) \div cs.n) + 3 THEN "hexdump-text"
+    ELSE IF \E i \in 1..Len(cs.win) : cs.win[i].line # DumpLineAt(cs.win[i].slice, cs.win[i].off, cs.n, ow) THEN "hexdump-text"
+    ELSE IF cs.undlen # cs.len \/ cs.undhead # cs.datahead \/ cs.undtail # cs.datatail THEN "hexundump-inverts"
+    ELSE IF \E i \in 1..Len(cs.win) : UndumpLine(cs.win[i].line, cs.n) # cs.win[i].slice THEN "format-reads-back"
+    ELSE ""
 Verdict(cs) ==
-    IF cs.kind = "hex" THEN (LET w == HexVerdict(cs) IN [id |-> cs.id, st |-> IF w = "" THEN "ok" ELSE "mismatch", why |-> w, at |-> 0])
+    IF cs.kind = "hexlong" THEN (LET w == HexLongVerdict(cs) IN [id |-> cs.id, st |-> IF w = "" THEN "ok" ELSE "mismatch", why |-> w, at |-> 0])
+    ELSE IF cs.kind = "hex" THEN (LET w == HexVerdict(cs) IN [id |-> cs.id, st |-> IF w = "" THEN "ok" ELSE "mismatch", why |-> w, at |-> 0])
     ELSE LET d == Walk(cs, <<>>, 1) IN [id |-> cs.id, st |-> IF d.why = "" THEN "ok" ELSE "mismatch", why |-> d.why, at |-> d.at]
 Init == cid \in {i \in 1..Len(Cases) : Cases[i].id \notin Done} /\ done = FALSE
 Next == ~done /\ done' = TRUE /\ cid' = cid /\ PrintT(ToJson(Verdict(Cases[cid])))
